@@ -28,6 +28,7 @@ use crate::cpc::compression_data::LENGTH_LIMITED_UNARY_ENCODING_TABLE65;
 use crate::cpc::determine_correct_offset;
 use crate::cpc::determine_flavor;
 use crate::cpc::pair_table::PairTable;
+use crate::error::Error;
 
 #[derive(Default)]
 pub(super) struct CompressedState {
@@ -355,12 +356,45 @@ pub(super) struct UncompressedState {
 }
 
 impl CompressedState {
-    pub fn uncompress(&self, lg_k: u8, num_coupons: u32) -> UncompressedState {
-        match determine_flavor(lg_k, num_coupons) {
-            Flavor::Empty => UncompressedState {
+    /// Rebuilds the window and the table of surprising values.
+    ///
+    /// The compressed words come from a serialized image, so every structural property the
+    /// rest of the sketch relies on is checked here and reported as an error.
+    pub fn uncompress(&self, lg_k: u8, num_coupons: u32) -> Result<UncompressedState, Error> {
+        let k = 1u64 << lg_k;
+        if (num_coupons as u64) > 64 * k {
+            return Err(Error::deserial(format!(
+                "num_coupons {num_coupons} exceeds the {} bits of a sketch with lg_k {lg_k}",
+                64 * k
+            )));
+        }
+        let flavor = determine_flavor(lg_k, num_coupons);
+        let has_table = !self.table_data.is_empty();
+        let has_window = !self.window_data.is_empty();
+        let consistent = match flavor {
+            Flavor::Empty => !has_table && !has_window,
+            Flavor::Sparse | Flavor::Hybrid => has_table && !has_window,
+            Flavor::Pinned | Flavor::Sliding => {
+                has_window && (has_table || self.table_num_entries == 0)
+            }
+        };
+        if !consistent || self.table_num_entries > num_coupons {
+            return Err(Error::deserial(
+                "window / table sections do not match the number of coupons",
+            ));
+        }
+        // Every pair costs at least two bits and every window byte at least one, so the sizes
+        // allocated below are bounded by the data actually present.
+        if (self.table_num_entries as usize) > 32 * self.table_data.len()
+            || (has_window && (k as usize) > 32 * self.window_data.len())
+        {
+            return Err(Error::insufficient_data("compressed CPC data"));
+        }
+        match flavor {
+            Flavor::Empty => Ok(UncompressedState {
                 table: PairTable::new(2, lg_k + 6),
                 window: vec![],
-            },
+            }),
             Flavor::Sparse => self.uncompress_sparse_flavor(lg_k),
             Flavor::Hybrid => self.uncompress_hybrid_flavor(lg_k),
             Flavor::Pinned => self.uncompress_pinned_flavor(lg_k, num_coupons),
@@ -368,7 +402,7 @@ impl CompressedState {
         }
     }
 
-    fn uncompress_sparse_flavor(&self, lg_k: u8) -> UncompressedState {
+    fn uncompress_sparse_flavor(&self, lg_k: u8) -> Result<UncompressedState, Error> {
         debug_assert!(self.window_data.is_empty(), "window is not expected");
         debug_assert!(!self.table_data.is_empty(), "table is expected");
 
@@ -377,15 +411,15 @@ impl CompressedState {
             self.table_data_words,
             self.table_num_entries,
             lg_k,
-        );
+        )?;
 
-        UncompressedState {
+        Ok(UncompressedState {
             table: PairTable::from_slots(lg_k, self.table_num_entries, pairs),
             window: vec![],
-        }
+        })
     }
 
-    fn uncompress_hybrid_flavor(&self, lg_k: u8) -> UncompressedState {
+    fn uncompress_hybrid_flavor(&self, lg_k: u8) -> Result<UncompressedState, Error> {
         debug_assert!(self.window_data.is_empty(), "window is not expected");
         debug_assert!(!self.table_data.is_empty(), "table is expected");
 
@@ -394,7 +428,7 @@ impl CompressedState {
             self.table_data_words,
             self.table_num_entries,
             lg_k,
-        );
+        )?;
 
         // In the hybrid flavor, some of these pairs actually belong in the window, so we will
         // separate them out, moving the "true" pairs to the bottom of the array.
@@ -414,13 +448,13 @@ impl CompressedState {
             }
         }
 
-        UncompressedState {
+        Ok(UncompressedState {
             table: PairTable::from_slots(lg_k, next_true_pair, pairs),
             window,
-        }
+        })
     }
 
-    fn uncompress_pinned_flavor(&self, lg_k: u8, num_coupons: u32) -> UncompressedState {
+    fn uncompress_pinned_flavor(&self, lg_k: u8, num_coupons: u32) -> Result<UncompressedState, Error> {
         debug_assert!(!self.window_data.is_empty(), "window is expected");
 
         let mut window = vec![];
@@ -430,7 +464,7 @@ impl CompressedState {
             &mut window,
             lg_k,
             num_coupons,
-        );
+        )?;
         let num_pairs = self.table_num_entries;
         let table = if num_pairs == 0 {
             PairTable::new(2, lg_k + 6)
@@ -441,23 +475,24 @@ impl CompressedState {
                 self.table_data_words,
                 num_pairs,
                 lg_k,
-            );
+            )?;
             // undo the compressor's 8-column shift
             for i in 0..num_pairs {
                 let i = i as usize;
-                assert!(
-                    (pairs[i] & 63) < 56,
-                    "pair column index is invalid: {}",
-                    pairs[i]
-                );
+                if (pairs[i] & 63) >= 56 {
+                    return Err(Error::deserial(format!(
+                        "pair column index is invalid: {}",
+                        pairs[i]
+                    )));
+                }
                 pairs[i] += 8;
             }
             PairTable::from_slots(lg_k, num_pairs, pairs)
         };
-        UncompressedState { table, window }
+        Ok(UncompressedState { table, window })
     }
 
-    fn uncompress_sliding_flavor(&self, lg_k: u8, num_coupons: u32) -> UncompressedState {
+    fn uncompress_sliding_flavor(&self, lg_k: u8, num_coupons: u32) -> Result<UncompressedState, Error> {
         debug_assert!(!self.window_data.is_empty(), "window is expected");
 
         let mut window = vec![];
@@ -467,7 +502,7 @@ impl CompressedState {
             &mut window,
             lg_k,
             num_coupons,
-        );
+        )?;
         let num_pairs = self.table_num_entries;
         let table = if num_pairs == 0 {
             PairTable::new(2, lg_k + 6)
@@ -478,7 +513,7 @@ impl CompressedState {
                 self.table_data_words,
                 num_pairs,
                 lg_k,
-            );
+            )?;
             let pseudo_phase = determine_pseudo_phase(lg_k, num_coupons);
             let permutation = &COLUMN_PERMUTATIONS_FOR_DECODING[pseudo_phase as usize];
             let offset = determine_correct_offset(lg_k, num_coupons);
@@ -489,6 +524,11 @@ impl CompressedState {
                 let row_col = pairs[i];
                 let row = row_col >> 6;
                 let mut col = (row_col & 63) as u8;
+                if col >= 56 {
+                    return Err(Error::deserial(format!(
+                        "pair column index is invalid: {row_col}"
+                    )));
+                }
                 // first undo the permutation
                 col = permutation[col as usize];
                 // then undo the rotation: old = (new + (offset+8)) mod 64
@@ -498,7 +538,7 @@ impl CompressedState {
 
             PairTable::from_slots(lg_k, num_pairs, pairs)
         };
-        UncompressedState { table, window }
+        Ok(UncompressedState { table, window })
     }
 }
 
@@ -507,12 +547,24 @@ fn uncompress_surprising_values(
     data_words: usize,
     num_pairs: u32,
     lg_k: u8,
-) -> Vec<u32> {
-    let k = 1 << lg_k;
+) -> Result<Vec<u32>, Error> {
+    let k: u32 = 1 << lg_k;
     let mut pairs = vec![0; num_pairs as usize];
+    if num_pairs == 0 {
+        return Ok(pairs);
+    }
     let num_base_bits = golomb_choose_number_of_base_bits(k + num_pairs, num_pairs as u64);
-    low_level_uncompress_pairs(&mut pairs, num_pairs, num_base_bits, data, data_words);
-    pairs
+    let in_bounds =
+        low_level_uncompress_pairs(&mut pairs, num_pairs, num_base_bits, data, data_words);
+    // The decoder cannot fail on arbitrary bits; what it produced is checked instead: distinct
+    // (row, col) pairs of this sketch in increasing order, decoded from words that were present.
+    let valid = in_bounds
+        && pairs.iter().all(|&p| (p >> 6) < k)
+        && pairs.windows(2).all(|w| w[0] < w[1]);
+    if !valid {
+        return Err(Error::deserial("corrupted compressed surprising values"));
+    }
+    Ok(pairs)
 }
 
 fn uncompress_sliding_window(
@@ -521,17 +573,21 @@ fn uncompress_sliding_window(
     window: &mut Vec<u8>,
     lg_k: u8,
     num_coupons: u32,
-) {
+) -> Result<(), Error> {
     let k = 1 << lg_k;
     window.resize(k, 0);
     let pseudo_phase = determine_pseudo_phase(lg_k, num_coupons);
-    low_level_uncompress_bytes(
+    let in_bounds = low_level_uncompress_bytes(
         window,
         k as u32,
         data,
         data_words,
         &DECODING_TABLES_FOR_HIGH_ENTROPY_BYTE[pseudo_phase as usize],
     );
+    if !in_bounds {
+        return Err(Error::insufficient_data("compressed sliding window"));
+    }
+    Ok(())
 }
 
 fn low_level_uncompress_pairs(
@@ -540,7 +596,7 @@ fn low_level_uncompress_pairs(
     num_base_bits: u8,
     compressed_words: &[u32],
     num_compressed_words: usize,
-) {
+) -> bool {
     let mut word_index = 0;
     let mut bitbuf = 0;
     let mut bufbits = 0;
@@ -587,18 +643,21 @@ fn low_level_uncompress_pairs(
         if y_delta > 0 {
             predicted_col_index = 0;
         }
-        let row_index = predicted_row_index + y_delta;
-        let col_index = predicted_col_index + x_delta;
+        // (wrapping / saturating: corrupted input must not panic here; the caller validates the
+        // decoded pairs, and out-of-range values fail that validation)
+        let row_index = predicted_row_index.wrapping_add(y_delta);
+        let col_index = predicted_col_index.saturating_add(x_delta).min(64);
         let row_col = (row_index << 6) | (col_index as u32);
         pairs[pair_index as usize] = row_col;
         predicted_row_index = row_index;
         predicted_col_index = col_index + 1;
+        if word_index > num_compressed_words {
+            return false;
+        }
     }
 
-    debug_assert!(
-        word_index <= num_compressed_words,
-        "word_index: {word_index}, num_compressed_words: {num_compressed_words}",
-    );
+    // A well-formed stream is never read past its end.
+    word_index <= num_compressed_words
 }
 
 fn low_level_uncompress_bytes(
@@ -607,7 +666,7 @@ fn low_level_uncompress_bytes(
     compressed_words: &[u32],
     num_compressed_words: usize,
     decoding_table: &[u16],
-) {
+) -> bool {
     let mut word_index = 0;
     let mut bitbuf = 0;
     let mut bufbits = 0;
@@ -631,11 +690,8 @@ fn low_level_uncompress_bytes(
         bufbits -= code_word_length;
     }
 
-    // Buffer over-run should be impossible unless there is a bug.
-    debug_assert!(
-        word_index <= num_compressed_words,
-        "word_index: {word_index}, num_compressed_words: {num_compressed_words}",
-    );
+    // A well-formed stream is never read past its end.
+    word_index <= num_compressed_words
 }
 
 fn determine_pseudo_phase(lg_k: u8, num_coupons: u32) -> u8 {
@@ -722,6 +778,10 @@ fn read_unary(
         subtotal += 8;
         *bufbits -= 8;
         *bitbuf >>= 8;
+        if *next_word_index > compressed_words.len() + 1 {
+            // ran off the end of a corrupted stream (all further bits read as zero)
+            return subtotal;
+        }
     }
 }
 
@@ -747,7 +807,10 @@ fn maybe_fill_bitbuf(
     minbits: u8,
 ) {
     if *bufbits < minbits {
-        *bitbuf |= (words[*word_index] as u64) << *bufbits;
+        // Reading past the end yields zero bits instead of panicking: the stream may come from a
+        // corrupted image. The decoders report the over-run through the advanced word index.
+        let word = words.get(*word_index).copied().unwrap_or(0);
+        *bitbuf |= (word as u64) << *bufbits;
         *word_index += 1;
         *bufbits += 32;
     }
